@@ -93,17 +93,24 @@ func ruleImportNumber(c *eng.Ctx) {
 			continue
 		}
 		// target type: map[string]any / any ⇒ numbers become float64 unless UseNumber was called
-		generic := false
+		generic, raw := false, false
 		if len(cs.Call.Args) == 1 {
 			t := info.TypeOf(cs.Call.Args[0])
 			if p, ok := t.(*types.Pointer); ok {
 				switch u := p.Elem().Underlying().(type) {
 				case *types.Map:
 					generic = types.IsInterface(u.Elem())
+					raw = eng.TypeName(u.Elem()) == "encoding/json.RawMessage"
 				case *types.Interface:
 					generic = true
 				}
 			}
+		}
+		if raw {
+			// values kept as raw JSON text: no number is converted by the decoder
+			n++
+			c.OK(rule, fmt.Sprintf("basicImport:Decode#%d:integers-preserved", n), cs.Call.Pos(), "document values are kept as json.RawMessage")
+			continue
 		}
 		if !generic {
 			continue
@@ -141,7 +148,7 @@ func ruleImportStrict(c *eng.Ctx) {
 			return true
 		}
 		nm := eng.CalleeName(info, call)
-		strict := strings.HasPrefix(nm, "encoding/json.(*Decoder).") || nm == "client.NewDocFromMap" || strings.HasSuffix(nm, ".Create") || strings.HasSuffix(nm, ".Update") || strings.HasSuffix(nm, ".Set") || nm == "internal/db.(*DB).getCollectionByName"
+		strict := strings.HasPrefix(nm, "encoding/json.(*Decoder).") || nm == "client.NewDocFromMap" || nm == "client.NewDocFromJSON" || nm == "encoding/json.Marshal" || nm == "encoding/json.Unmarshal" || strings.HasSuffix(nm, ".Create") || strings.HasSuffix(nm, ".Update") || strings.HasSuffix(nm, ".Set") || nm == "internal/db.(*DB).getCollectionByName"
 		if !strict {
 			return true
 		}
@@ -218,11 +225,23 @@ func ruleImportIDMap(c *eng.Ctx) {
 	// comparison docMap[K] == val inside the relation-field loop: K must be NewDocIDFieldName
 	n := 0
 	ast.Inspect(fi.Decl.Body, func(m ast.Node) bool {
-		be, ok := m.(*ast.BinaryExpr)
-		if !ok || be.Op != token.EQL {
+		var sides []ast.Expr
+		pos := token.NoPos
+		switch x := m.(type) {
+		case *ast.BinaryExpr:
+			if x.Op == token.EQL {
+				sides, pos = []ast.Expr{x.X, x.Y}, x.Pos()
+			}
+		case *ast.CallExpr: // bytes.Equal(docMap[K], val) on raw values
+			if nm := eng.CalleeName(info, x); (nm == "bytes.Equal" || nm == "reflect.DeepEqual") && len(x.Args) == 2 {
+				sides, pos = x.Args, x.Pos()
+			}
+		}
+		if sides == nil {
 			return true
 		}
-		for _, side := range []ast.Expr{be.X, be.Y} {
+		be := struct{ p token.Pos }{pos}
+		for _, side := range sides {
 			ix, ok := ast.Unparen(side).(*ast.IndexExpr)
 			if !ok {
 				continue
@@ -230,7 +249,7 @@ func ruleImportIDMap(c *eng.Ctx) {
 			k := selObj(info, ix.Index)
 			if k == newID || k == oldID {
 				n++
-				c.Check(k == newID, rule, "basicImport:self-reference-test-uses-new-id", be.Pos(), "a self reference is recognised by the recorded new id",
+				c.Check(k == newID, rule, "basicImport:self-reference-test-uses-new-id", be.p, "a self reference is recognised by the recorded new id",
 					"the self-reference test compares the foreign key with "+k.Name()+" instead of the recorded new id: for a document whose id changed on export the self reference is not stripped, the document is created under another id than _docIDNew and its relation dangles")
 			}
 		}
@@ -240,7 +259,9 @@ func ruleImportIDMap(c *eng.Ctx) {
 	// both id fields are deleted from the map before NewDocFromMap
 	flow := eng.NewFlow(info, fi.Decl.Body)
 	for _, cs := range eng.Calls(info, fi.Decl.Body) {
-		if cs.Name != "client.NewDocFromMap" {
+		// the point where the map becomes the document: NewDocFromMap, or json.Marshal of the map
+		// (followed by NewDocFromJSON)
+		if cs.Name != "client.NewDocFromMap" && cs.Name != "encoding/json.Marshal" {
 			continue
 		}
 		for _, key := range []types.Object{newID, oldID} {
